@@ -52,6 +52,14 @@ def table_headers(rnd, method):
             bits += field(ncodes, 9)
             bits += [rnd.getrandbits(1) for _ in range(rnd.choice([0, 16, 200, 3000]))]
             res.append(bits_to_bytes(bits))
+        # single-code forms of all three tables with the largest raw code values: one command per zero bits
+        ob = {"-lh4-": 4, "-lh5-": 4, "-lh6-": 5, "-lh7-": 5, "-lhx-": 5, "-lk7-": 6}[method]
+        for code in (0, 255, 256, 288, 289, 508, 509, 510, 511):
+            for off in (0, 1, (1 << ob) - 1):
+                bits = field(rnd.choice([1, 300, 65535]), 16) + field(0, 5) + field(rnd.getrandbits(5), 5)
+                bits += field(0, 9) + field(code, 9) + field(0, ob) + field(off, ob)
+                bits += [rnd.getrandbits(1) for _ in range(rnd.choice([0, 64, 400]))]
+                res.append(bits_to_bytes(bits))
     elif method == "-pm2-":
         for _ in range(60):
             bits = [rnd.getrandbits(1)]
@@ -112,7 +120,7 @@ def run(ctx):
                     b = rnd.choice([0, 0xff, 0x55, 0xaa, 0x80, 0x01])
                     streams.append((bytes([b]) * rnd.choice([1, 10, 200, 5000]), rnd.choice([100, 20000, 300000]), "constant"))
             for t in table_headers(rnd, m):
-                streams.append((t, rnd.choice([50, 3000, 70000]), "table-header"))
+                streams.append((t, rnd.choice([700, 3000, 70000]), "table-header"))
             for (d, L, kind) in streams:
                 if m == "-pm1-":
                     L = min(L, 40000)
